@@ -104,6 +104,8 @@ K_SYS = {
                  "the state and advances by exactly one; tokens belong to the source",
                  ["TokenFactory::new", "TokenFactory::token", "TokenFactory::registration_token"],
                  "all 2^64 start tokens, any sub id < 0xffff"),
+    "factory_x": H("k_c20_token_factory_exhaustion", "sys", "a factory at the last sub-id panics on the following requests instead of repeating a token",
+                   ["TokenFactory::token", "TokenInner::increment_sub_id"], "all sources, state sub-id = 0xffff", expect_panic=True),
     "table": H("k_c02_poll_table", "sys", "Poll::register/reregister/unregister leave exactly (fd, interest, mode, key) / "
                "nothing in the modelled kernel table; double register and reregister of an unregistered fd fail and "
                "change nothing", ["Poll::register", "Poll::reregister", "Poll::unregister", "sys::cvt_mode", "sys::cvt_interest"],
@@ -166,7 +168,7 @@ K_TIMER = {
                 "1 timer, unwind 3 + heap loops", stub=True, unwindset=HEAP_LOOPS, timeout_q=900),
     "inflight": H("k_c05_timer_rearm_inflight", "timer", "an expired event already collected in the batch, then the timer is "
                   "re-armed by another callback before delivery: must not fire before the new deadline",
-                  TIMER_FNS + WHEEL_FNS, "1 timer, unwind 3 + heap loops", stub=True, unwindset=HEAP_LOOPS, timeout_q=900),
+                  TIMER_FNS + WHEEL_FNS, "1 timer, unwind 3 + heap loops", stub=True, unwindset=HEAP_LOOPS, timeout_q=900, timeout_t=2400, tiers=T),
 }
 
 K_WHEEL_FAM = []
@@ -269,7 +271,7 @@ K_SIG = {
 }
 P("C19", "proof", list(K_SIG.values()), bounds="3 signals, 1 operation after new()",
   outside="real signal delivery, siginfo contents other than the number, multi-threaded processes; real-time signals queueing")
-PROPS["C20"]["k"] = K_TOKEN + [K_SYS["factory"]]
+PROPS["C20"]["k"] = K_TOKEN + [K_SYS["factory"], K_SYS["factory_x"]]
 
 
 # ----------------------------------------------------------------------------- engine M
@@ -346,11 +348,13 @@ M_TM = {
     "wheel": M("wheel", OB.ob_wheel, OB.ob_wheel.__doc__, ["TimerWheel::next_expired", "TimerWheel::cancel (+closures)", "TimerWheel::insert",
                "TimerWheel::insert_reuse"], "all paths (loop-free; std BinaryHeap calls are events)", replay=["c05_timer_scenarios"]),
     "timer": M("timer", OB.ob_timer, OB.ob_timer.__doc__, ["<Timer as EventSource>::register", "::unregister", "::reregister", "::process_events"],
-               "all paths (loop-free)", replay=["c05_timer_scenarios"]),
+               "all paths (loop-free)", replay=["c05_timer_scenarios", "c01_routing_scenarios"]),
 }
 M_POLL = M("poll", OB.ob_poll, OB.ob_poll.__doc__, ["sys::Poll::poll"], "timer drain loop unrolled twice", replay=["c01_routing_scenarios", "c05_timer_scenarios"])
 M_TOK = M("token", OB.ob_token, OB.ob_token.__doc__, TOKEN_FNS, "full 64-bit key space (bit-vector validity queries, no unrolling)",
           replay=["c01_routing_scenarios"])
+M_TM["stale"] = M("timer_stale", OB.ob_timer_stale, OB.ob_timer_stale.__doc__, ["<Timer as EventSource>::process_events"], "all paths",
+                   replay=["d4_timer_rearm_in_flight"])
 from mirsym import pqueries as PQ   # noqa: E402
 
 P_Q = {
@@ -381,10 +385,10 @@ P("C04", "model_checking", [], [M_CH["send"], M_CH["process"], M_PING["ping"], P
   bounds="engine M: all paths, receive loop unrolled twice, batch limit for every 64-bit capacity; engine P: see obligation bounds",
   outside="std::sync::mpsc itself (linearizable FIFO, disconnect when the last sender is dropped; try_recv on a zero-capacity "
           "channel pairs with a blocked sender); weak memory; more than one sender thread in the interleaving query")
-addm("C05", [M_TM["wheel"], M_TM["timer"], M_POLL])
+addm("C05", [M_TM["wheel"], M_TM["timer"], M_TM["stale"], M_POLL])
 addm("C06", [M_H["remove"], M_H["disable"], M_H["update"], M_H["enable"], M_DE["rm3"], M_TOK])
 addm("C07", [M_H["disable"], M_H["enable"], M_DE["pa2"], M_DE["fsub"], M_DE["rm3"], M_TM["timer"]])
-addm("C08", [M_DE["re1"], M_H["re2"], M_EX["process"], M_DE["pa2"], M_H["idles"]])
+addm("C08", [M_DE["re1"], M_H["re2"], M_EX["process"], M_DE["pa2"], M_H["idles"], M_DE["rm3"], M_H["remove"]])
 addm("C09", [M_DE["pa2"], M_DE["pav"], M_H["disable"], M_H["update"]])
 P("C10", "model_checking", [], [M_EX["process"], M_EX["send"], M_EX["drop"], M_EX["stream"], P_Q["exec"]],
   bounds="engine M: dequeue/poll loops unrolled twice; engine P: see obligation bounds",
@@ -396,7 +400,7 @@ P("C11", "model_checking", [], [M_L["run"], M_L["block_on"], M_L["signal"], P_Q[
           "(excluded by the property text)")
 addm("C12", [M_DE["lc2"], M_TM["wheel"], M_TM["timer"], M_POLL])
 addm("C13", [M_H["idles"], M_H["insidle"]])
-addm("C14", [M_DE["lc2"], M_DE["fsub"]])
+addm("C14", [M_DE["lc2"], M_DE["fsub"], M_DE["rm3"]])
 addm("C15", [M_H["reg1"], M_IO["new"], M_DE["err1"], M_DE["err2"], M_DE["pa2"]])
 addm("C16", [M_IO["drop"], M_IO["new"], M_DE["rm3"]])
 addm("C17", [M_IO["io"], M_IO["new"], M_IO["drop"]])
